@@ -686,7 +686,10 @@ def sk_stack(tier):
     out = []
     for k in range(0, _rank(tier, 2, 3) + 1):
         for n in (1, 2, 3):
-            out.append({"x": ALPHA[:k], "n": n})
+            out.append({"x": ALPHA[:k], "n": n, "orders": "same"})
+            if k >= 2 and n >= 2:
+                # the stacked arrays store their (common) dimensions in different orders
+                out.append({"x": ALPHA[:k], "n": n, "orders": "rotated"})
     return out
 
 
@@ -705,7 +708,13 @@ def u_stack(W, sk):
     dims = [D[l] for l in sk["x"]]
     n = sk["n"]
     new = Dimension(name="Stacked", letter="z", items=[f"z{j}" for j in range(n)])
-    arrs = [W.array(f"x{j}", dims) for j in range(n)]
+    def order(j):
+        if sk.get("orders") != "rotated" or len(dims) < 2:
+            return dims
+        r = j % len(dims)
+        return list(reversed(dims)) if (j == 1 and len(dims) == 2) else dims[r:] + dims[:r]
+
+    arrs = [W.array(f"x{j}", order(j)) for j in range(n)]
     labs = [SL.lab(W, a) for a in arrs]
     snaps = SL.snapshot(W, arrs)
     out = W.call(lambda: flodym_array_stack(arrs, new))
